@@ -533,8 +533,9 @@ class SubscriptionsManagerBase:
         except http.client.NotConnected as ex:
             # this is an error related to the connection => log error and continue
             self._logger.error('could not send notification report: {!r}:  subscr = {}', ex, subscription)  # noqa: PLE1205, TRY400
-        except TimeoutError as ex:
-            # this is an error related to the connection => log error and continue
+        except OSError as ex:
+            # TimeoutError, and any other error of the (implicit) connect, e.g. EHOSTUNREACH, ENETUNREACH, ECONNRESET:
+            # this is an error related to the connection of this one subscriber => log error and continue with the others
             self._logger.error('could not send notification report error= {!r}: {}', ex, subscription)  # noqa: PLE1205, TRY400
         except etree.DocumentInvalid as ex:
             # this is an error related to the document, it cannot be sent to any subscriber => re-raise
